@@ -135,12 +135,12 @@ reg(Check("C17", "model_checking",
           note="", technique="bounded-exhaustive enumeration; explicit-state model checking of the implementation (deviation-bounded)",
           engine="E4 enum + E6 election", claimed=True,
           parts=[Part("ring", "server/ringhash", "^TestVerifC17Ring$", shards=(8, 8)),
-                 Part("election3", SRV, "^TestVerifC17Election3$", instr=True, gomaxprocs=16, deadline=(120, 3000)),
+                 Part("election3", SRV, "^TestVerifC17Election3$", instr=True, gomaxprocs=16, deadline=(300, 3000)),
                  Part("gate", SRV, "^TestVerifC17Gate$", instr=True, shards=(8, 16), deadline=(120, 1800)),
-                 Part("excluded3", SRV, "^TestVerifC17Excluded3$", instr=True, gomaxprocs=16, deadline=(120, 1800)),
+                 Part("excluded3", SRV, "^TestVerifC17Excluded3$", instr=True, gomaxprocs=16, deadline=(300, 1800)),
                  Part("excluded4", SRV, "^TestVerifC17Excluded4$", instr=True, gomaxprocs=16, deadline=(120, 1800), thorough_only=True),
-                 Part("election4", SRV, "^TestVerifC17Election4$", instr=True, gomaxprocs=16, deadline=(60, 1800)),
-                 Part("election5", SRV, "^TestVerifC17Election5$", instr=True, gomaxprocs=16, deadline=(60, 1800))]))
+                 Part("election4", SRV, "^TestVerifC17Election4$", instr=True, gomaxprocs=16, deadline=(300, 1800)),
+                 Part("election5", SRV, "^TestVerifC17Election5$", instr=True, gomaxprocs=16, deadline=(300, 1800))]))
 
 reg(Check("C12", "exploration",
           "tokens: 36 issued tokens (3 uids x 3 levels x 4 feature sets), each with all 400 single-bit and 79800 double-bit "
